@@ -83,15 +83,33 @@ def suite(pid, n):
 
 
 def check(pid, n, target=None):
+    """SEED_SCRATCH=1: run the check from a scratch copy of /verif against a scratch worktree with the patch applied
+    (XV_REPO), so that several seeded changes can be examined at the same time and /repo is never touched."""
     d, meta = load_meta(pid, n)
     target = target or pid
-    assert sh(["git", "-C", "/repo", "status", "--porcelain"]).stdout.strip() == "", "repo dirty"
+    scratch = os.environ.get("SEED_SCRATCH") == "1"
+    wt = "/tmp/seedchk/%s_%s_c" % (pid, n)
+    vs = "/tmp/seedchk/%s_%s_v" % (pid, n)
     try:
-        r = sh(["git", "-C", "/repo", "apply", os.path.join(d, "patch.diff")])
-        assert r.returncode == 0, r.stderr
+        if scratch:
+            os.makedirs("/tmp/seedchk", exist_ok=True)
+            sh(["git", "-C", "/repo", "worktree", "remove", "--force", wt])
+            r = sh(["git", "-C", "/repo", "worktree", "add", "--detach", wt, "HEAD"])
+            assert r.returncode == 0, r.stderr
+            r = sh(["git", "-C", wt, "apply", os.path.join(d, "patch.diff")])
+            assert r.returncode == 0, r.stderr
+            shutil.rmtree(vs, ignore_errors=True)
+            r = sh(["rsync", "-a", "--exclude", ".git", "--exclude", "seeded", "--exclude", "replay", "/verif/", vs + "/"])
+            assert r.returncode == 0, r.stderr
+            vcheck, env = vs + "/vcheck", dict(os.environ, XV_REPO=wt)
+        else:
+            assert sh(["git", "-C", "/repo", "status", "--porcelain"]).stdout.strip() == "", "repo dirty"
+            r = sh(["git", "-C", "/repo", "apply", os.path.join(d, "patch.diff")])
+            assert r.returncode == 0, r.stderr
+            vcheck, env = "/verif/vcheck", dict(os.environ)
         res = {}
         for tier in ("quick", "thorough"):
-            r = sh(["/verif/vcheck", target, "--tier", tier], timeout=7200)
+            r = sh([vcheck, target, "--tier", tier], timeout=7200, env=env)
             viol = [l for l in r.stdout.splitlines() if l.startswith("VIOLATION")]
             res[tier] = {"exit": r.returncode, "violations": viol[:4]}
             for v in viol[:1]:
@@ -106,7 +124,11 @@ def check(pid, n, target=None):
         meta.setdefault("vcheck", {})[target] = res
         meta["caught"] = any(v.get("exit") for t_ in meta["vcheck"].values() for v in t_.values())
     finally:
-        sh(["git", "-C", "/repo", "checkout", "--", "."])
+        if scratch:
+            sh(["git", "-C", "/repo", "worktree", "remove", "--force", wt])
+            shutil.rmtree(vs, ignore_errors=True)
+        else:
+            sh(["git", "-C", "/repo", "checkout", "--", "."])
         save_meta(d, meta)
         print(pid, n, target, json.dumps(meta.get("vcheck", {}).get(target))[:400])
 
